@@ -24,7 +24,7 @@ class BcryptHashInfo:
 
 
 def inspect_bcrypt_hash(hash: str) -> BcryptHashInfo | None:
-    result = BCRYPT_HASH_REGEX.match(hash)
+    result = BCRYPT_HASH_REGEX.fullmatch(hash)
     if not result:
         return None
 
